@@ -1,23 +1,7 @@
 #![no_main]
 use libfuzzer_sys::fuzz_target;
-include!("common.rs");
 
-// the first 32 bytes select the configuration and the API path, the rest is the contract code itself
+// C01: 32 bytes of configuration choices, then the contract code itself
 fuzz_target!(|data: &[u8]| {
-    if data.len() < 33 || data.len() > 2_000 {
-        return;
-    }
-    vcheck::core::install_panic_hook_once();
-    let cfg_choices = choices(&data[..32]);
-    let mut ch = vcheck::core::Chooser::new(&cfg_choices);
-    let cfg = vcheck::subj::VmCfg::generate(&mut ch);
-    let case = vcheck::props::c01::Case {
-        bytes: data[32..].to_vec(),
-        cfg,
-        gen: "fuzz",
-        one_call: ch.chance(1, 4),
-        real_tc: false,
-    };
-    let mut a = acc();
-    settle("C01", vcheck::props::c01::check_case(&case, &mut a));
+    vcheck::fuzzing::fuzz_entry("fz_c01", "C01", data);
 });
